@@ -140,6 +140,9 @@ pub struct Script {
     pub sut_transport: Option<Arc<dyn Fn() -> quinn::TransportConfig + Send + Sync>>,
     pub authority: String,
     pub path: String,
+    /// server role only: client bidi streams opened (and finished) before the CONNECT stream, so
+    /// that the session id becomes 4 * burn
+    pub burn: usize,
 }
 
 impl Script {
@@ -162,6 +165,7 @@ impl Script {
             sut_transport: None,
             authority: "localhost".into(),
             path: "/scen".into(),
+            burn: 0,
         }
     }
 }
@@ -187,6 +191,12 @@ pub async fn establish(role: Role, script: &Script, limit: Duration) -> Result<L
                 let mut ctrl = peer.open_uni(&[]).await?;
                 write_cut(&peer, &mut ctrl, &script.control, &script.control_cuts, script.control_event, 0, script.pause).await?;
                 peer.keep_s(ctrl);
+                for _ in 0..script.burn {
+                    let (mut bs, br) = peer.open_bi(&h3::frame(h3::grease(1), b"")).await?;
+                    let _ = bs.finish();
+                    drop(br);
+                    drop(bs);
+                }
                 let (mut s, r) = peer.open_bi(&[]).await?;
                 let sid = raw::stream_index(s.id());
                 write_cut(&peer, &mut s, &script.headers, &script.headers_cuts, script.headers_event, sid, script.pause).await?;
@@ -298,4 +308,11 @@ impl Live {
         self.peer.close(0, b"");
         self.conn.close(wtransport::VarInt::from_u32(0), b"");
     }
+}
+
+/// Server role with `burn` client bidi streams consumed before the CONNECT stream.
+pub async fn establish_burn(script: &Script, burn: usize, limit: Duration) -> Result<Live, EstErr> {
+    let mut s = script.clone();
+    s.burn = burn;
+    establish(Role::Server, &s, limit).await
 }
